@@ -158,6 +158,42 @@ def _empty_literal(v):
     return (isinstance(v, (ast.Tuple, ast.List)) and not v.elts) or (isinstance(v, ast.Dict) and not v.keys) or (isinstance(v, ast.Constant) and v.value in (None, False))
 
 
+def _helper_returns_gated(f, v):
+    """``v`` is a call of a module-level private helper that receives ``getitem`` and returns something non-empty only
+    where has_keyword(<its getitem parameter>, 'asarray') and has_keyword(..., 'lock') hold."""
+    if not (isinstance(v, ast.Call) and isinstance(v.func, ast.Name)):
+        return False
+    h = f.module.functions.get(v.func.id)
+    if h is None or h.cls is not None:
+        return False
+    formals = [a.arg for a in h.node.args.args]
+    gi = next((formals[i] for i, a in enumerate(v.args) if isinstance(a, ast.Name) and a.id == "getitem" and i < len(formals)), None)
+    gi = gi or next((k.arg for k in v.keywords if isinstance(k.value, ast.Name) and k.value.id == "getitem"), None)
+    if gi is None:
+        return False
+    from ..cfg import CFG
+
+    hcfg = CFG(h.node)
+    want = [x.replace("(getitem,", f"({gi},") for x in _HK]
+    rets = [r for r in hcfg.returns if r.value is not None]
+    if not rets:
+        return False
+    seen = False
+    for r in rets:
+        if _empty_literal(r.value):
+            continue
+        if isinstance(r.value, ast.IfExp) and _empty_literal(r.value.orelse):
+            from ..refguards import _conjuncts, _nnf
+
+            cj = {unparse(x) for x in _conjuncts(_nnf(r.value.test))} | chain_conjuncts(hcfg, r, h.node, h.module)
+        else:
+            cj = chain_conjuncts(hcfg, r, h.node, h.module)
+        if not all(w in cj for w in want):
+            return False
+        seen = True
+    return seen
+
+
 def _gated_names(f, cfg):
     """Local names that can only be non-empty where both has_keyword checks hold."""
     out = set()
@@ -182,6 +218,9 @@ def _gated_names(f, cfg):
                     continue
             conj = chain_conjuncts(cfg, s, f.node, f.module)
             if all(h in conj for h in _HK):
+                saw_gate = True
+                continue
+            if _helper_returns_gated(f, v):
                 saw_gate = True
                 continue
             ok = False
@@ -247,7 +286,8 @@ def r24_2(ctx):
             while st in parent and st not in cfg.parent:
                 st = parent[st]
             conj = chain_conjuncts(cfg, st, f.node, f.module) if st in cfg.parent else set()
-            here = all(h in conj for h in _HK) or any(c in gated for c in conj)
+            raw = {unparse(t_) for t_, pol in (cfg.guards(st) if st in cfg.parent else []) if pol}  # a tested local, before it is looked through
+            here = all(h in conj for h in _HK) or any(c in gated for c in conj | raw)
             fixed = [e for e in t.elts[3:] if not isinstance(e, ast.Starred)]
             starred = [e.value for e in t.elts[3:] if isinstance(e, ast.Starred)]
             add = []
